@@ -24,8 +24,9 @@ class SimPool:
     """multiprocessing.Pool(processes) with imap/map/imap_unordered.
 
     Every task crosses a pickle boundary in both directions (as with real
-    worker processes) and runs as a baton thread.  Each "process" starts from
-    a copy of the parent's `random` state (fork semantics)."""
+    worker processes) and runs as a baton thread.  Each "process" has its own
+    `random` state (swapped in on every context switch), freshly seeded as
+    CPython does after fork."""
 
     monitor = None  # optional callable(event, worker_index)
 
@@ -65,7 +66,15 @@ class SimPool:
                 results[i] = pickle.loads(_dumps(f(arg)))
                 done[i] = True
             return results, done, errors
-        fork_state = random.getstate()
+        # CPython (>= 3.7) re-seeds the `random` module in every forked child
+        # (os.register_at_fork), so worker processes start from *distinct*
+        # generator states; numpy's global generator would be copied, sedpack
+        # does not use it.
+        seeder = random.Random(random.getrandbits(64))
+
+        def fresh_state():
+            return random.Random(seeder.getrandbits(64)).getstate()
+
         running = [0]
         pending = collections.deque(range(n))
         parent = {"state": None}
@@ -95,8 +104,9 @@ class SimPool:
                 pending.popleft()
                 running[0] += 1
                 parent["state"] = random.getstate()
-                s.cur.local = {"rand": fork_state}
-                random.setstate(fork_state)
+                mine = fresh_state()
+                s.cur.local = {"rand": mine}
+                random.setstate(mine)
                 try:
                     f, arg = pickle.loads(payload)
                     s.log("pool.start", i)
